@@ -91,7 +91,7 @@ func (ex *Exec) verifyTop() {
 	}
 	entry := st.clone()
 	ex.entryState = entry
-	envPre := &SpecEnv{vars: fr.params, st: entry, lst: entry, pkg: fn.Pkg.Pkg, topOld: entry.top}
+	envPre := &SpecEnv{vars: fr.params, st: entry, lst: entry, pkg: fnPkg(fn), topOld: entry.top}
 	envPre.old = envPre
 	for _, g := range ex.prog.Contracts.Globals {
 		if g.Axiom {
@@ -139,7 +139,7 @@ func (ex *Exec) verifyTop() {
 			o := vc.oblige("panic", "panic-is-error:"+strings.Trim(p.text, "\""), p.cond, isErr, p.where)
 			o.Descr = "a panic leaving this function carries an error value (not a runtime.Error, not a string)"
 			if len(c.Exsures) > 0 {
-				env := &SpecEnv{vars: fr.params, st: p.st, lst: p.st, pkg: fn.Pkg.Pkg, old: envPre, topOld: entry.top}
+				env := &SpecEnv{vars: fr.params, st: p.st, lst: p.st, pkg: fnPkg(fn), old: envPre, topOld: entry.top}
 				for _, e := range c.Exsures {
 					oe := vc.oblige("postcondition", e.Name()+"@"+strings.Trim(p.text, "\""), p.cond, ex.evalBool(e.E, env), e.Where)
 					oe.Descr = e.Text
@@ -148,7 +148,7 @@ func (ex *Exec) verifyTop() {
 			continue
 		}
 		if len(c.Panics) > 0 {
-			env := &SpecEnv{vars: fr.params, st: p.st, lst: p.st, pkg: fn.Pkg.Pkg, old: envPre, topOld: entry.top}
+			env := &SpecEnv{vars: fr.params, st: p.st, lst: p.st, pkg: fnPkg(fn), old: envPre, topOld: entry.top}
 			var conds []Term
 			for _, pc := range c.Panics {
 				conds = append(conds, ex.evalBool(pc.E, env))
@@ -208,7 +208,7 @@ func (ex *Exec) verifyTop() {
 	if sig.Results().Len() == 1 {
 		rvars["result"] = results[0]
 	}
-	envPost := &SpecEnv{vars: rvars, st: exit, lst: exit, pkg: fn.Pkg.Pkg, old: envPre, topOld: entry.top}
+	envPost := &SpecEnv{vars: rvars, st: exit, lst: exit, pkg: fnPkg(fn), old: envPre, topOld: entry.top}
 	for _, e := range c.Ensures {
 		g := ex.evalBool(e.E, envPost)
 		o := vc.oblige("postcondition", e.Name(), reach, g, e.Where)
